@@ -40,9 +40,7 @@ static std::string params_spec(int kind, const Params &p) {
   return b;
 }
 
-// S5: the MEMALLOC knob (only consulted by /repo when built with -DLIBCSD_VERIF)
-static unsigned long g_memalloc = 32768;
-extern "C" unsigned long libcsd_verif_memalloc(void) { return g_memalloc; }
+// S5: the MEMALLOC knob lives in common.h (g_memalloc / libcsd_verif_memalloc)
 
 // Parameters are a closed grid indexed by an integer, so that (set, kind, param index) is a catalogue triple.
 static const int PARAM_GRID = 12;
